@@ -59,3 +59,37 @@ def changed_flag_maintains_pending_set(w: World, t: opt_float):
     else:
         check(in_changeset(state, ent) == has_pending_change(ent), "pending set membership is exact for the entry")
     check(is_dirty(state, ent), "the entry is dirty")
+
+
+@lemma(props=["C11", "C17"], configs="none", raises=["AssertionError"],
+       inline=["cloudsync.sync.state:SyncState.finished"],
+       stubs={"cloudsync.sync.state:SyncEntry.is_related_to": {"results": ["True", "False"], "raises": False, "havoc": False}})
+def finished_contract(w: World):
+    """the body of SyncState.finished against the contract the manager lemmas use for it: force_sync is cleared on the
+    sides that carry no change flag; the entry leaves the pending set exactly when neither side is flagged (and is never
+    added); another entry is touched only in its priority (the reset loop is abstracted: what the
+    priority becomes is not stated here); no flag, id, path or hash of any entry changes"""
+    state = w.state
+    ent = w.entry("ent")
+    other = w.entry("other")
+    assume(in_changeset(state, other))
+    in0 = in_changeset(state, ent)
+    ch0 = truthy(ent[0].changed)
+    ch1 = truthy(ent[1].changed)
+    fs0, fs1 = ent[0].force_sync, ent[1].force_sync
+    op = other.priority
+    o_fields = (other[0].changed, other[1].changed, other[0].oid, other[1].oid, other[0].path, other[1].path, other.ignored)
+    e_fields = (ent[0].changed, ent[1].changed, ent[0].oid, ent[1].oid, ent[0].path, ent[1].path, ent[0].hash, ent[1].hash, ent.ignored, ent.priority)
+    state.finished(ent)
+    check(ent[0].force_sync == (fs0 if ch0 else False) and ent[1].force_sync == (fs1 if ch1 else False),
+          "force_sync survives only on a side that is still flagged")
+    if ch0 or ch1:
+        check(in_changeset(state, ent) == in0, "still flagged: membership in the pending set is unchanged")
+    else:
+        check(not in_changeset(state, ent), "nothing pending: the entry leaves the pending set")
+    check((ent[0].changed, ent[1].changed, ent[0].oid, ent[1].oid, ent[0].path, ent[1].path, ent[0].hash, ent[1].hash, ent.ignored, ent.priority) == e_fields,
+          "nothing else of the entry changes")
+    if other is not ent:
+        check((other[0].changed, other[1].changed, other[0].oid, other[1].oid, other[0].path, other[1].path, other.ignored) == o_fields,
+              "nothing else of another entry changes")
+        check(in_changeset(state, other), "another entry stays in the pending set")
